@@ -21,6 +21,7 @@ def run(ctx):
     S.r53_step_finally(ctx, sc)
     S.r54_strategy_setter(ctx, sc)
     S.r21_typestate(ctx, sc)
+    S.exception_text_total(ctx, 'R5.6')
     # resuming after a pause executes the remaining events only if the wake-up of the resumed run is not lost (shared rule with C04)
     S.r44_wait_clear(ctx, sc)
     # "every other event is still executed, in order", also for events cancelled and scheduled while paused: the event list hands out the
